@@ -29,7 +29,7 @@ CLAIMED = {
         technique="Coq proof of DFS-with-shared-memo completeness/exactness + extracted-model correspondence + recipe-level definite-assignment oracle",
         design_ref="DESIGN.md §4 C17, design_notes/C17.md"),
     "C01": dict(
-        text="Proof (Coq, closed under the global context, 73 theorems). End to end for one routine (C01_routine_end_to_end, Props/C01_end_to_end.v): for every option record, main routine or "
+        text="Proof (Coq, closed under the global context, 96 theorems). End to end for one routine (C01_routine_end_to_end, Props/C01_end_to_end.v): for every option record, main routine or "
              "subroutine body, and recipe on which compile_one succeeds, every environment, fuel, stack and state - if the source semantics (Src/Denote.v) gives an outcome, the FLATTENED INSTRUCTION LIST "
              "(lower -> addIncoming -> NormalizeBlocks -> sortBlocks -> flattenBlocks) started at pc 0 reaches exactly the corresponding halting configuration and no other; the only side condition "
              "(root not loop-headed) is proved necessary by a counterexample and discharged for every subroutine body and every well-typed main routine (C01_subroutine_end_to_end, "
@@ -37,7 +37,10 @@ CLAIMED = {
              "C01_flatten_correct(_final), single-exit of lowered graphs. With the optimiser: C01_routine_end_to_end_optimized_partial (inherits C03's side conditions). Slot assignment composed "
              "(Props/C01_slots.v): rewriting abstract slots to the numbers assign_slots chose is a step-for-step semantic identity (C01_slot_rewrite_preserves), assign_slots is injective and in range, "
              "and C01_routine_end_to_end_assigned / C01_program_routines_end_to_end state the end-to-end theorem for the placeholder-free code of every routine of a program (optimiser off); distinct "
-             "variables never alias (C01_assigned_variables_independent). NOT composed by theorem: multi-routine linking (callsub/retsub, spill), constant blocks (C12), assembly text and the assembler's reading of it - these are covered on every run by exact text/error-class equality between the Coq "
+             "variables never alias (C01_assigned_variables_independent). Stage E (Props/C01_text.v): the emitted TEXT of any printable component list parses back to exactly that list (C01_text_roundtrip, all 190 opcode names read back), the machine on the parsed program "
+             "simulates the list semantics step for step (C01_machine_simulates_list, C01_machine_bridge), and C01_program_text_end_to_end: for a main-only program without constant assembly and with the "
+             "optimiser off, Machine.run on the parse of the text compile_model prints returns the verdict the source semantics denotes (side conditions printable/targets_ok/stack_bounded are decidable or "
+             "shown necessary). NOT composed by theorem: multi-routine linking (callsub/retsub, spill), constant blocks (C12), assembly text and the assembler's reading of it - these are covered on every run by exact text/error-class equality between the Coq "
              "compile model and compileTeal (exhaustive small shapes, random programs, constant-dense programs; versions 2..10, both modes, option matrix) and by executing the REAL TEAL on the extracted "
              "AVM against the source semantics.",
         note="Trusted: Coq kernel; AVM semantics and TEAL grammar (coq/AVM, hand-written, validated against node goldens in corpus/avm); Src/Denote.v as the meaning of each constructor; Comp/*.v hand "
